@@ -31,6 +31,10 @@ KINDS = {
                                  "discriminator": {"propertyName": "kind", "mapping": {"dog": "#/components/schemas/TgtDog", "cat": "#/components/schemas/TgtCat"}}},
                          "TgtDog": {"allOf": [ref("Tgt"), {"type": "object", "properties": {"bark": {"type": "boolean"}}}]},
                          "TgtCat": {"allOf": [ref("Tgt"), {"type": "object", "properties": {"lives": ref("TgtItem")}}]}, "TgtItem": OBJ()},
+    "discbase3": lambda: {"Tgt": {"type": "object", "required": ["kind"], "properties": {"kind": {"type": "string"}},
+                                  "discriminator": {"propertyName": "kind", "mapping": {"mid": "#/components/schemas/TgtMid", "leaf": "#/components/schemas/TgtLeaf"}}},
+                          "TgtMid": {"allOf": [ref("Tgt"), {"type": "object", "properties": {"mid": {"type": "boolean"}}}]},
+                          "TgtLeaf": {"allOf": [ref("TgtMid"), {"type": "object", "properties": {"leaf": ref("TgtItem")}}]}, "TgtItem": OBJ()},
     "discunion": lambda: {"Tgt": {"oneOf": [ref("TgtDog"), ref("TgtCat")], "discriminator": {"propertyName": "kind"}},
                           "TgtDog": {"type": "object", "required": ["kind"], "properties": {"kind": {"const": "dog"}, "bark": {"type": "boolean"}}},
                           "TgtCat": {"type": "object", "required": ["kind"], "properties": {"kind": {"const": "cat"}, "lives": ref("TgtItem")}}, "TgtItem": OBJ()},
@@ -59,7 +63,7 @@ SCHEMA_POS = {
     "nestedmap": lambda: {"type": "object", "properties": {"m": {"type": "object", "additionalProperties": {"type": "object", "properties": {"t": ref("Tgt")}}}}},
 }
 OP_POS = ["query", "header", "pathparam", "pathitem_query", "comp_param", "reqbody", "comp_reqbody", "respbody", "resp_array", "resp_default", "comp_response", "resp_map", "req_inline_prop",
-          "resp_binary_404", "resp_binary_default", "resp_text_500", "resp_inline_relaxed"]
+          "resp_binary_404", "resp_binary_default", "resp_text_500", "resp_inline_relaxed", "resp_header"]
 
 
 def build_spec(pos, kind):
@@ -131,6 +135,11 @@ def build_spec(pos, kind):
         holder_op["responses"]["default"] = {"description": "err", "content": {"application/pdf": {"schema": ref("Tgt")}}}
     elif pos == "resp_text_500":
         holder_op["responses"]["500"] = {"description": "err", "content": {"text/plain": {"schema": ref("Tgt")}}}
+    elif pos == "resp_header":
+        # a schema referenced only from a response HEADER: the generator does not model response headers, so nothing uses it
+        comps["headers"] = {"X-Comp": {"schema": ref("Tgt")}}
+        holder_op["responses"] = {"200": {"description": "ok", "headers": {"X-Rate": {"schema": ref("Tgt")}, "X-Page": {"schema": {"type": "array", "items": ref("Tgt")}}, "X-C": {"$ref": "#/components/headers/X-Comp"}},
+                                         "content": {"application/json": {"schema": {"type": "object", "properties": {"fine": {"type": "boolean"}}}}}}}
     elif pos == "resp_inline_relaxed":
         # an inline open enum (known values next to a free string) as a response body: its known-values enum is a helper
         # type that only the conversion of the body produces
@@ -154,7 +163,7 @@ def build_spec(pos, kind):
 
 def applicable(pos, kind):
     if pos == "allof":
-        return kind in ("object", "allofchild", "discbase")
+        return kind in ("object", "allofchild", "discbase", "discbase3")
     if pos == "discmap":
         return kind == "object"
     if pos == "resp_inline_relaxed":
